@@ -1375,7 +1375,10 @@ class ForAll(BinaryOperator):
     @property
     @lru_cache(maxsize=None)
     def condition_unique_variable_ids(self) -> List[int]:
-        return [v.id_ for v in self.condition._unique_variables_.difference(self.left._unique_variables_)]
+        # Literals are not bindings: a condition value served from the result cache does not carry them, so keeping them
+        # here would make the same binding look different between universal values.
+        return [v.id_ for v in self.condition._unique_variables_.difference(self.left._unique_variables_)
+                if not isinstance(v.value, Literal)]
 
     def _evaluate__(self, sources: Optional[Dict[int, HashedValue]] = None,
                     yield_when_false: bool = False) -> Iterable[Dict[int, HashedValue]]:
